@@ -466,6 +466,7 @@ type FuncContract struct {
 	Nonblock bool
 	Safety   bool
 	SafetyTags []string
+	Uses     []string // lemmas assumed in the function's VC
 }
 
 type LoopContract struct {
@@ -498,6 +499,7 @@ type PureFunc struct {
 	Body   Expr // nil => uninterpreted
 	Text   string
 	IsPred bool
+	Rec    bool // recursive definition (define-fun-rec); state read by the body becomes an implicit parameter
 }
 
 type Lemma struct {
@@ -505,6 +507,8 @@ type Lemma struct {
 	E         Expr
 	Text      string
 	Axiom     bool
+	Induct    string // induction variable (lemma NAME induct j from LO: forall ..., j int :: P)
+	From      Expr   // lower bound of the induction
 	Tags      []string
 	Line      int
 	File      string
@@ -544,7 +548,7 @@ type SpecFile struct {
 
 var clauseKinds = map[string]bool{
 	"requires": true, "ensures": true, "modifies": true, "invariant": true, "decreases": true,
-	"inline": true, "trusted": true, "nonblocking": true, "acquires": true, "releases": true,
+	"inline": true, "trusted": true, "nonblocking": true, "acquires": true, "releases": true, "uses": true,
 	"ghost": true, "assert": true, "assume": true, "params": true, "havocs": true, "reads": true, "check": true, "safety": true,
 }
 
@@ -689,7 +693,12 @@ func ParseSpecFile(path, pkg string) (*SpecFile, error) {
 		case "pure", "predicate":
 			// pure func name(params) T = body   |  predicate name(params) = body
 			rest := it.rest
+			isRec := false
 			if kind == "pure" {
+				if strings.HasPrefix(rest, "rec ") {
+					isRec = true
+					rest = strings.TrimSpace(strings.TrimPrefix(rest, "rec"))
+				}
 				rest = strings.TrimSpace(strings.TrimPrefix(rest, "func"))
 			}
 			lp := strings.Index(rest, "(")
@@ -718,7 +727,7 @@ func ParseSpecFile(path, pkg string) (*SpecFile, error) {
 				return nil, errf(it.line, "%v", err)
 			}
 			after := strings.TrimSpace(rest[rp+1:])
-			pf := &PureFunc{Pkg: sf.Pkg, Name: name, Params: ps, IsPred: kind == "predicate", Text: it.rest}
+			pf := &PureFunc{Pkg: sf.Pkg, Name: name, Params: ps, IsPred: kind == "predicate", Text: it.rest, Rec: isRec}
 			var bodyText string
 			if eq := strings.Index(after, "="); eq >= 0 && !strings.HasPrefix(after[eq:], "==") {
 				pf.Result = strings.TrimSpace(after[:eq])
@@ -747,7 +756,18 @@ func ParseSpecFile(path, pkg string) (*SpecFile, error) {
 			if err != nil {
 				return nil, errf(it.line, "%v", err)
 			}
-			sf.Lemmas = append(sf.Lemmas, &Lemma{Pkg: sf.Pkg, Name: strings.TrimSpace(it.rest[:i]), E: e, Text: it.rest[i+1:], Axiom: kind == "axiom", Tags: tags, Line: it.line, File: path})
+			lm := &Lemma{Pkg: sf.Pkg, Name: strings.TrimSpace(it.rest[:i]), E: e, Text: it.rest[i+1:], Axiom: kind == "axiom", Tags: tags, Line: it.line, File: path}
+			if fs := strings.Fields(lm.Name); len(fs) >= 5 && fs[1] == "induct" && fs[3] == "from" {
+				lm.Name, lm.Induct = fs[0], fs[2]
+				fe, err := ParseExpr(strings.Join(fs[4:], " "))
+				if err != nil {
+					return nil, errf(it.line, "%v", err)
+				}
+				lm.From = fe
+			} else if len(fs) != 1 {
+				return nil, errf(it.line, "lemma header: NAME [induct VAR from EXPR]: formula")
+			}
+			sf.Lemmas = append(sf.Lemmas, lm)
 			curF, curL = nil, nil
 		case "rule":
 			sf.Rules = append(sf.Rules, &Rule{Pkg: sf.Pkg, Text: it.rest, Tags: tags, Line: it.line, File: path})
@@ -883,6 +903,14 @@ func ParseSpecFile(path, pkg string) (*SpecFile, error) {
 			case "inline":
 				curF.Inline = true
 				continue
+			case "uses":
+				// uses lemma1, lemma2: proved lemmas assumed in this function's VC
+				for _, nm := range strings.Split(it.rest, ",") {
+					if nm = strings.TrimSpace(nm); nm != "" {
+						curF.Uses = append(curF.Uses, nm)
+					}
+				}
+				continue
 			case "trusted":
 				curF.Trusted = true
 				sf.Assumes = append(sf.Assumes, "trusted contract: "+curF.Key+" ("+it.rest+")")
@@ -907,6 +935,9 @@ func ParseSpecFile(path, pkg string) (*SpecFile, error) {
 				c.E = e
 			}
 			if curL != nil {
+				if kind != "invariant" && kind != "decreases" && kind != "modifies" && kind != "assert" {
+					return nil, errf(it.line, "%s clause inside a loop block (only invariant/decreases/modifies belong there)", kind)
+				}
 				curL.Clauses = append(curL.Clauses, c)
 			} else {
 				curF.Clauses = append(curF.Clauses, c)
